@@ -31,6 +31,11 @@ CLAIMS = {
         note=TRUST + 'assumes the CharPartition invariant for `self` (sorted disjoint well-formed intervals, witness <= next start) and documented preconditions of push',
         tech='abstract interpretation of MIR with inferred loop invariants, accessor-term axioms for the partition, per-leaf entailment',
         ref='5.C11'),
+    'C12': dict(
+        text='static: the two-pointer sweep is analysed as a loop whose invariant (each carried piece is a suffix of the current interval of its partition or the sentinel, and lies after the last emitted interval) is proposed as candidates and must survive the inductive-invariant inference; every iteration (back edge) of each of the 7 branches must emit exactly one interval and satisfy the step obligations O1-O6 (well formed, sorted, refinement of both inputs, nothing skipped, correct advance of both pieces, maximality); exit only when both inputs are exhausted; no panic, no wrapping in either configuration; merge_partition_list / merge_deriv_classes are left folds of merge_partitions. The step obligations imply the coarsest-common-refinement property by the paper argument in the rule header.',
+        note=TRUST + 'assumes the CharPartition invariant of both arguments and the contract of CharPartition::get/push (checked under C11)',
+        tech='abstract interpretation of MIR with an inferred inductive loop invariant (ghost last-emitted end), per-iteration step obligations decided by the in-checker linear-arithmetic procedure',
+        ref='5.C12'),
     'C15': dict(
         text='static: every LoopRange method is abstractly interpreted on all paths in both build configurations (ranges split into finite/infinite cases); each leaf must entail the set-level spec of the returned range (start, finiteness, end as normalised polynomials), panics are allowed exactly in the documented overflow region, nothing may wrap; right_mul_is_exact must equal the interval criterion whose correctness is argued on paper in the rule header.',
         note=TRUST + 'assumes start<=end for finite ranges; product monotonicity is the only non-linear lemma used by the decision procedure',
